@@ -47,6 +47,9 @@ var stdAssumptions = []string{
 }
 
 var props = map[string]propInfo{
+	"C01": {Engine: "bgp", Quick: 1500, Thorough: 60000, BatchSize: 50},
+	"C02": {Engine: "bgp", Quick: 20000, Thorough: 600000, BatchSize: 500},
+	"C04": {Engine: "bgp", Quick: 8000, Thorough: 300000, BatchSize: 250},
 	"C05": {Engine: "bgp", Quick: 1500, Thorough: 40000},
 	"C06": {Engine: "bgp", Quick: 1500, Thorough: 40000},
 	"C07": {Engine: "bgp", Quick: 1200, Thorough: 30000},
@@ -61,7 +64,8 @@ var props = map[string]propInfo{
 	"C22": {Engine: "bgp", Quick: 500, Thorough: 10000, BatchSize: 20},
 	"C23": {Engine: "bgp", Quick: 1200, Thorough: 30000},
 	"C24": {Engine: "bgp", Quick: 1500, Thorough: 40000},
-	"C25": {Engine: "bgp", Quick: 1000, Thorough: 30000},
+	"C25": {Engine: "bgp", Quick: 1500, Thorough: 40000},
+	"C29": {Engine: "bgp", Quick: 10000, Thorough: 300000, BatchSize: 250},
 	"C20": {Engine: "bgp", Quick: 1500, Thorough: 40000},
 }
 
